@@ -229,7 +229,7 @@ pub fn p(text: &str) -> E {
 pub struct Style {
     /// separator between arguments
     pub sep: &'static str,
-    /// padding after `(` and before `)`
+    /// padding before `)`
     pub pad: &'static str,
     /// write `(.f x)` instead of `(f . x)` where the first argument is the bare root
     pub dot_sugar: bool,
@@ -317,8 +317,8 @@ pub fn show_with(e: &E, st: &Style) -> String {
         E::Sel(n) => format!("/{n}/"),
         E::Ctx(n) => format!("&{n}"),
         E::Call(name, args) => {
+            // no padding after `(`: the help text documents `(<function-name> <arg0> ..)` only
             let mut s = String::from("(");
-            s.push_str(st.pad);
             let mut rest: &[E] = args;
             if st.dot_sugar && !args.is_empty() && args[0] == E::root() && !name.starts_with('.') {
                 s.push('.');
